@@ -720,9 +720,8 @@ class Analysis:
                 self.expr(f, e.value, st)           # self.fit(X, y).labels_
                 self.read_attr(f, e.attr, st)
                 return
-            if isinstance(e.value, ast.Attribute) and isinstance(e.value.value, ast.Name) and e.value.value.id == "np" \
-                    and e.value.attr == "random":
-                st.read(GLOBAL_RNG)
+            if isinstance(e.value, ast.Name) and e.value.id in ("np", "numpy") and e.attr == "random":
+                st.read(GLOBAL_RNG)      # np.random.<anything>: numpy's global generator (state left by earlier calls)
             self.expr(f, e.value, st)
             return
         if isinstance(e, ast.Call):
